@@ -22,6 +22,7 @@ const (
 	kComment  = "comment-adjacent-token"
 	kRrtype   = "comment-resets-rrtype"
 	kDirArg   = "directive-arg-keyword"
+	kEscOnly  = "escaped-only-token"
 )
 
 // ---------------------------------------------------------------------------------------------
@@ -328,7 +329,7 @@ func genOpts() zm.GenOpts {
 
 func renderOpts() zm.RenderOpts {
 	return zm.RenderOpts{ForceGenerateTTL: pbt.Known(kGenTTL), BlankBeforeComment: pbt.Known(kComment), OnExcluded: pbt.Excluded,
-		NoCommentBeforeKeywordRdata: pbt.Known(kRrtype), KeywordLike: keywordLike}
+		NoCommentBeforeKeywordRdata: pbt.Known(kRrtype), KeywordLike: keywordLike, AvoidEscapedOnly: pbt.Known(kEscOnly)}
 }
 
 // keywordLike: the token spells a type or class keyword for the library's lexer. Used only to
@@ -596,6 +597,24 @@ func init() {
 			return nil
 		}
 		c := zoneCase{Zone: *z, OriginText: "example.", Renderings: []rendering{{Files: map[string]string{"o.db": plainText(z, den)}}}}
+		return oneLine(evalZone(&c, den))
+	})
+}
+
+func init() {
+	// a token made only of backslash-escaped separators (\; \( \\ ...) is not followed by a blank
+	// token when the previous line ended in a blank
+	pbt.Probe(kEscOnly, func() error {
+		z := &zm.Zone{FileName: "e.db", HasOrigin: true, Origin: [][]byte{[]byte("example")}}
+		z.Items = []zm.Item{
+			{Kind: zm.KRec, Owner: zm.MName{Kind: zm.Rel, Labels: [][]byte{[]byte("a")}}, HasTTL: true, TTL: 300, RD: zm.RData{Type: zm.TA, IP: []byte{192, 0, 2, 1}}},
+			{Kind: zm.KRec, Owner: zm.MName{Kind: zm.Rel, Labels: [][]byte{[]byte(";")}}, HasTTL: true, TTL: 300, RD: zm.RData{Type: zm.TA, IP: []byte{192, 0, 2, 2}}},
+		}
+		den, err := zm.Denote(z)
+		if err != nil {
+			return nil
+		}
+		c := zoneCase{Zone: *z, OriginText: "example.", Renderings: []rendering{{Files: map[string]string{"e.db": "a 300 A 192.0.2.1 \n\\; 300 A 192.0.2.2\n"}}}}
 		return oneLine(evalZone(&c, den))
 	})
 }
